@@ -305,6 +305,12 @@ func (r Resp) Outcome() string {
 	if r.Panic != "" {
 		sb.WriteString("|panic:" + r.Panic)
 	}
+	for _, k := range SortedKeys(r.Map) {
+		sb.WriteString("|" + k + "=" + r.Map[k].String())
+	}
+	if len(r.Ints) > 0 {
+		sb.WriteString(fmt.Sprint("|", r.Ints))
+	}
 	return sb.String()
 }
 
